@@ -390,7 +390,25 @@ def check_definition(e, b, opts):
     """build(), capacity, alignment, Display: C02 (capacity / record alignment) and C13 (no panic)."""
     check_env(e)
     e.flush_checks()
-    defn = Agg('RecordDefinition', None, [b.fields[0], b.fields[1]])
+    # the definition as the real build() hands it out (offsets per id must be those of the builder)
+    snapshot = {d.fields[0].fields[0]: Layout.info(d) for d in Layout.defs_of(b)}
+    listed = [[x.fields[0] for x in var.fields[1].items] for var in Layout.variants_of(b)]
+    saved_tag = e.panic_tag
+    e.panic_tag = 'C13: build() panics'
+    defn = e.call(GB + 'build', [b])
+    e.panic_tag = saved_tag
+    bdefs = defn.fields[0].fields[0].items
+    for vi, var in enumerate(defn.fields[1].items):
+        ids_v = [x.fields[0] for x in var.fields[1].items]
+        e.verify(vi < len(listed) and ids_v == listed[vi], 'C12: build() changed the data of variant %d' % vi)
+        for k in ids_v:
+            found = [d for d in bdefs if d.fields[0].fields[0] == k]
+            at_index = bdefs[k] if k < len(bdefs) else None
+            e.verify(at_index is not None and at_index.fields[0].fields[0] == k, 'C03: after build() datum %d of a closed variant is not found under its identifier' % k)
+            if at_index is not None and k in snapshot:
+                e.verify(Layout.info(at_index)[0] == snapshot[k][0], 'C03: datum %d moved when the definition was built' % k)
+    e.verify(len(defn.fields[1].items) == len(listed), 'C12: build() changed the number of variants')
+    b = Agg('Builder', None, [defn.fields[0], defn.fields[1]])
     dcell = [defn]
     dref = Ref(dcell, 0)
     saved = e.panic_tag
@@ -452,7 +470,7 @@ def model_to_scenario(t, model, opts):
 
 # ------------------------------------------------------------------------------------------ DEF
 def def_tasks(K, P):
-    return [dict(kind='def', K=K, P=P)]
+    return [dict(kind='def', K=K, P=P, pending_first=False)] + ([dict(kind='def', K=K, P=P, pending_first=True)] if P else [])
 
 
 def run_def(e, t, opts):
@@ -463,17 +481,20 @@ def run_def(e, t, opts):
     cell = [b]
     bref = Ref(cell, 0)
     pre = sym_prestate(e, t['K'], aligns, opts.get('smax', SMAX), opts.get('omax', OMAX), True)
+
+    def pending():
+        for j in range(t['P']):
+            a = e.choose(e.fresh_int('pa%d' % j, 1, max(aligns)), aligns)
+            s = e.fresh_int('ps%d' % j, 0, opts.get('smax', SMAX))
+            r = e.call(GB + 'add_datum', [bref, 'q%d' % j, details(USIZE_MAX, s, a)])
+            e.call(GB + 'remove_datum', [bref, r.fields[0]])
+    if t.get('pending_first'):
+        pending()
     for i, (o, s, a) in enumerate(pre):
         e.call(GB + 'add_datum', [bref, 'p%d' % i, details(o, s, a)])
     e.call(GB + 'close_record_variant_with', [bref, FnVal('__identity_strategy')])
-    for j in range(t['P']):
-        a = e.choose(e.fresh_int('pa%d' % j, 1, max(aligns)), aligns)
-        s = e.fresh_int('ps%d' % j, 0, opts.get('smax', SMAX))
-        r = e.call(GB + 'add_datum', [bref, 'q%d' % j, details(USIZE_MAX, s, a)])
-        e.call(GB + 'remove_datum', [bref, r.fields[0]])
-    e.panic_tag = 'C13: build() panics'
-    e.call(GB + 'build', [cell[0]])
-    e.panic_tag = ''
+    if not t.get('pending_first'):
+        pending()
     check_definition(e, cell[0], opts)
 
 
@@ -481,7 +502,7 @@ def def_scenario(t, model):
     g = lambda k, d=0: int(model.get(k, d))
     pre = [dict(o=g('o%d' % i), s=g('s%d' % i), a=g('a%d' % i, 1)) for i in range(t['K'])]
     pend = [dict(s=g('ps%d' % j), a=g('pa%d' % j, 1)) for j in range(t['P'])]
-    return dict(kind='step', strategy='append_data', pre=pre, stale=[], rm=[], pending=pend, new=[])
+    return dict(kind='step', strategy='append_data', pre=pre, stale=[], rm=[], pending=pend, new=[], pending_first=bool(t.get('pending_first')))
 
 
 # ------------------------------------------------------------------------------------------ HIST
